@@ -288,6 +288,7 @@ def _ctrunc_div(a, b):
 class CInterp:
     def __init__(self, explorer, functions, repo="/repo"):
         self.ex = explorer
+        self.repo = repo
         self.functions = functions  # name -> FunctionDecl json (chosen variant)
         Region.ALL.clear()
         self.call_models = {}
@@ -378,6 +379,9 @@ class CInterp:
             if isinstance(a[0], FV):
                 return FV([abs(x) for x in a[0].v])
             return abs(a[0])
+        r = self._sse_builtin(name, a)
+        if r is not NotImplemented:
+            return r
         if name in ("cbrt", "cbrtf"):
             if not is_sym(a[0]):
                 import math
@@ -456,6 +460,79 @@ class CInterp:
                 return SBool(z3.simplify(rterm(a[0]) == nan))  # the contract's NaN token (a distinguished value of the cell)
             return False  # reals: no NaN unless a contract says so
         return None
+
+    # ---- SSE intrinsics on __m128 = four float lanes (trusted: Intel's documented lane semantics) ------------------------------------
+    def _sse_imm(self, name):
+        """immediate of a named shuffle/swizzle helper, read from the REAL header text (mdtraj/rmsd/include/sse_swizzle.h)"""
+        tbl = getattr(self, "_sse_imm_tbl", None)
+        if tbl is None:
+            import re
+            tbl = {}
+            path = os.path.join(self.repo, "mdtraj/rmsd/include/sse_swizzle.h")
+            if os.path.exists(path):
+                for m in re.finditer(r"(_mm_(?:shuffle|swizzle)_ps_[xyzw]{4})\s*\([^)]*\)\s*\{\s*return[^;]*?(0x[0-9A-Fa-f]+)\s*\)", open(path).read()):
+                    tbl[m.group(1)] = int(m.group(2), 16)
+            self._sse_imm_tbl = tbl
+        return tbl.get(name)
+
+    def _sse_builtin(self, name, a):
+        if not name.startswith("_mm_"):
+            return NotImplemented
+        lanes = lambda v: v.v if isinstance(v, FV) else None
+        if name == "_mm_setzero_ps":
+            return FV([0.0, 0.0, 0.0, 0.0])
+        if name == "_mm_set_ps":  # _mm_set_ps(e3, e2, e1, e0): lane 0 = last argument
+            return FV([a[3], a[2], a[1], a[0]])
+        if name in ("_mm_set1_ps", "_mm_load1_ps", "_mm_load_ps1"):
+            v = a[0].region.read(a[0].off) if isinstance(a[0], Ptr) else a[0]
+            return FV([v, v, v, v])
+        if name in ("_mm_load_ps", "_mm_loadu_ps"):
+            p = a[0]
+            return FV([p.region.read(p.off + k) for k in range(4)])
+        if name in ("_mm_store_ps", "_mm_storeu_ps"):
+            p = a[0]
+            for k in range(4):
+                p.region.write(p.off + k, a[1].v[k])
+            return 0
+        if name == "_mm_store_ss":
+            a[0].region.write(a[0].off, a[1].v[0])
+            return 0
+        import operator as o
+        two = {"_mm_add_ps": o.add, "_mm_sub_ps": o.sub, "_mm_mul_ps": o.mul}
+        if name in two:
+            return FV([two[name](x, y) for x, y in zip(lanes(a[0]), lanes(a[1]))])
+        if name == "_mm_div_ps":
+            return FV([self.arith("/", x, y, True) for x, y in zip(lanes(a[0]), lanes(a[1]))])
+        if name == "_mm_hadd_ps":
+            x, y = lanes(a[0]), lanes(a[1])
+            return FV([x[0] + x[1], x[2] + x[3], y[0] + y[1], y[2] + y[3]])
+        if name == "_mm_unpacklo_ps":
+            x, y = lanes(a[0]), lanes(a[1])
+            return FV([x[0], y[0], x[1], y[1]])
+        if name == "_mm_unpackhi_ps":
+            x, y = lanes(a[0]), lanes(a[1])
+            return FV([x[2], y[2], x[3], y[3]])
+        if name == "_mm_movehl_ps":
+            x, y = lanes(a[0]), lanes(a[1])
+            return FV([y[2], y[3], x[2], x[3]])
+        if name == "_mm_movelh_ps":
+            x, y = lanes(a[0]), lanes(a[1])
+            return FV([x[0], x[1], y[0], y[1]])
+        if name.startswith("_mm_shuffle_ps_"):
+            imm = self._sse_imm(name)
+            if imm is None:
+                raise Unsupported(f"shuffle helper {name} not found in sse_swizzle.h")
+            x, y = lanes(a[0]), lanes(a[1])
+            return FV([x[imm & 3], x[(imm >> 2) & 3], y[(imm >> 4) & 3], y[(imm >> 6) & 3]])
+        if name.startswith("_mm_swizzle_ps_"):
+            imm = self._sse_imm(name)
+            if imm is None:
+                raise Unsupported(f"swizzle helper {name} not found in sse_swizzle.h")
+            x = lanes(a[0])
+            return FV([x[(imm >> (2 * k)) & 3] for k in range(4)])
+        if name == "_mm_add3_ps":
+            return NotImplemented
+        raise Unsupported(f"SSE intrinsic {name}")
 
     def round_(self, x):
         if not is_sym(x):
@@ -547,7 +624,7 @@ class CInterp:
             if d.get("kind") != "VarDecl":
                 continue
             qt = d.get("type", {}).get("qualType", "")
-            if d.get("storageClass") == "static":
+            if d.get("storageClass") == "static" and not qt.strip().startswith("const ") and " const" not in qt:
                 # state that persists across calls: needs a contract-supplied invariant for the value on entry
                 st = getattr(self, "static_state", {})
                 if d.get("name") not in st:
@@ -559,12 +636,16 @@ class CInterp:
             init = d.get("inner", [])
             init = [c for c in init if c.get("kind") not in (None,)]
             if "[" in qt and qt.rstrip().endswith("]"):
-                size = int(qt[qt.rindex("[") + 1: -1])
+                size = int(qt[qt.index("[") + 1: qt.index("]")])  # outermost dimension
                 r = Region(d["name"], "real" if ("float" in qt or "double" in qt) else "int", size)
                 r.local = [None] * size
                 if init and init[0].get("kind") == "InitListExpr":
                     vals = [self.rv(self.expr(c, env)) for c in init[0].get("inner", [])]
                     for i, v in enumerate(vals):
+                        if isinstance(v, list):  # a row of a two-dimensional array: its own region, the outer cell decays to a pointer to it
+                            row = Region(f"{d['name']}[{i}]", r.sort, len(v))
+                            row.local = list(v)
+                            v = Ptr(row, 0)
                         r.local[i] = v
                     for i in range(len(vals), size):
                         r.local[i] = 0
@@ -1071,6 +1152,8 @@ class CInterp:
         return [self.rv(self.expr(c, env)) for c in n.get("inner", [])]
 
     def mem_ref(self, p, idx):
+        if isinstance(p, AddrOf) and (idx == 0 or (isinstance(idx, int) and idx == 0)):
+            return p.ref  # *(&lvalue) is the lvalue itself (out-parameters)
         if not isinstance(p, Ptr) or p.region is None:
             raise Unsupported("dereference of a non-pointer / NULL")
         i = p.off + idx
